@@ -805,6 +805,14 @@ func c18CheckModule(r *Run, code int, xs []float64) {
 		return
 	}
 	got := out[0]
+	// the result belongs to the caller: the next module activation (of any type) must not change it
+	if other, oerr := neatmath.NodeActivators.ActivateModuleByType([]float64{-7.5, 11.25}, nil, neatmath.NodeActivationType(21+(code-20)%3)); oerr == nil && len(other) == 1 {
+		if math.Float64bits(out[0]) != math.Float64bits(got) {
+			r.Fail(Failure{Key: fmt.Sprintf("module-result-overwritten code=%d", code), What: "the slice returned by a module activation was changed by the next module activation",
+				Input: in, Observed: c18Hex(out[0]), Required: c18Hex(got)})
+			return
+		}
+	}
 	switch code {
 	case 21:
 		want := 1.0
@@ -1087,8 +1095,60 @@ func runC18(r *Run) error {
 		}
 		return math.NaN()
 	}()})
+	c18NetworkModules(r)
 	c18FactoryIndependence(r)
 	return nil
+}
+
+// c18NetworkModules: the module activations as a network applies them (network.ActivateModule): the value that
+// reaches the module's output node is the product / maximum / minimum of the ACTIVATIONS of the module's input
+// nodes - whatever weights the module's links carry (they are wiring, not synapses) - and it reaches every
+// node the module feeds.
+func c18NetworkModules(r *Run) {
+	weights := []float64{1, 2, 5, -1, 0, 0.5, -3.25}
+	for k := 0; k < r.N(120, 3000); k++ {
+		code := 21 + k%3
+		xs := c18RandomVector(r)
+		if len(xs) == 0 || len(xs) > 6 {
+			continue
+		}
+		cn := network.NewNNode(100, network.HiddenNeuron)
+		cn.ActivationType = neatmath.NodeActivationType(code)
+		ws := make([]float64, len(xs))
+		for i, x := range xs {
+			src := network.NewNNode(i+1, network.InputNeuron)
+			src.SensorLoad(x)
+			ws[i] = weights[r.Rng.Intn(len(weights))]
+			cn.Incoming = append(cn.Incoming, network.NewLink(ws[i], src, cn, false))
+		}
+		out := network.NewNNode(200, network.OutputNeuron)
+		wo := weights[r.Rng.Intn(len(weights))]
+		cn.Outgoing = append(cn.Outgoing, network.NewLink(wo, cn, out, false))
+		in := map[string]interface{}{"kind": "network-module", "code": code, "inputs": c18HexList(xs), "link_weights": ws, "out_link_weight": wo}
+		var err error
+		func() {
+			defer func() {
+				if p := recover(); p != nil {
+					err = fmt.Errorf("panic: %v", p)
+				}
+			}()
+			err = network.ActivateModule(cn, neatmath.NodeActivators)
+		}()
+		if err != nil {
+			r.Fail(Failure{Key: fmt.Sprintf("network-module-error code=%d", code), What: "network.ActivateModule failed on a well-formed module: " + err.Error(), Input: in})
+			continue
+		}
+		direct, derr := neatmath.NodeActivators.ActivateModuleByType(xs, nil, neatmath.NodeActivationType(code))
+		if derr != nil || len(direct) != 1 {
+			continue
+		}
+		if math.Float64bits(out.Activation) != math.Float64bits(direct[0]) || out.ActivationsCount != 1 {
+			r.Fail(Failure{Key: fmt.Sprintf("network-module-value code=%d", code), What: "the value a module delivers to its output node is not the module function of its input nodes' activations",
+				Input: in, Observed: c18Hex(out.Activation), Required: c18Hex(direct[0])})
+		}
+		r.Count(fmt.Sprint("nm ", code, c18HexList(xs), ws), len(xs) > 1)
+	}
+	r.Hist("network_modules", "checked")
 }
 
 // c18FactoryIndependence: registrations made on a factory of the caller's own must not reach the package default
